@@ -876,7 +876,7 @@ fn permute_rows(pr: &Prob, row: &[usize], cones: Vec<SupportedConeT<f64>>) -> Pr
     Prob { n: pr.n, P: pr.P.clone(), q: pr.q.clone(), A, b, cones }
 }
 
-fn variants(pr: &Prob, rng: &mut Rng) -> Vec<Variant> {
+fn variants(pr: &Prob, rng: &mut Rng, wide_k: bool) -> Vec<Variant> {
     let m = pr.b.len();
     let n = pr.n;
     let idm: Vec<usize> = (0..m).collect();
@@ -974,13 +974,24 @@ fn variants(pr: &Prob, rng: &mut Rng) -> Vec<Variant> {
         x.pfull = true;
         v.push(x);
     }
-    // objective scaled
-    {
-        let c = *rng.choose(&[0.125, 3.0, 10.0, 0.3]);
+    // objective scaled by k = 10^U(-8,8) (default settings: equilibration on, so that the
+    // cost scaling of the Ruiz loop meets its clip bounds for large |log k|); three draws,
+    // one of them forced to |log10 k| >= 6.  Every quantity is mapped back through k in
+    // `map_back`, so the pair oracle states  dobj_k/k - pobj_1 <= slack  (and vice versa).
+    for t in 0..3 {
+        let e = if t == 0 {
+            rng.uniform(6.0, 8.0) * if rng.bool(0.5) { 1.0 } else { -1.0 }
+        } else {
+            rng.uniform(-8.0, 8.0)
+        };
+        // planted infeasible problems: keep the objective at a comparable scale, the
+        // infeasibility tests use absolute thresholds on q'x and b'z
+        let e = if wide_k { e } else { e / 4.0 };
+        let c = 10f64.powf(e);
         let mut p2 = pr.clone();
         p2.q.iter_mut().for_each(|x| *x *= c);
         p2.P.iter_mut().for_each(|r| r.iter_mut().for_each(|x| *x *= c));
-        let mut x = mk("obj-scale", p2, st0.clone());
+        let mut x = mk(&format!("obj-scale-1e{:+.1}", e), p2, st0.clone());
         x.c = c;
         v.push(x);
     }
@@ -1141,7 +1152,7 @@ fn run_meta_variants(r: &Req) -> String {
     let fam = r.str("fam").to_string();
     let mut rng = Rng::new(seed ^ 0xC05);
     let pr = gen_problem(&mut rng, &fam);
-    let vars = variants(&pr, &mut rng);
+    let vars = variants(&pr, &mut rng, !matches!(fam.as_str(), "pinf" | "dinf"));
     let mut mapped = vec![];
     for v in &vars {
         let o = match std::panic::catch_unwind(std::panic::AssertUnwindSafe(|| solve(&v.pr, v.pfull, &v.st))) {
@@ -1562,8 +1573,9 @@ fn generate(s: &mut Session) {
             s.note(format!("verdict split compatible with the documented relative tolerances: {}", out));
         }
     }
-    // H0: at most 0.5 % of the problems have a variant that gives up; reject at level 1e-4
-    let allowance = binom_allowance(nv, 0.005, 1e-4);
+    // H0: at most 2 % of the problems have a variant that gives up (measured on the unchanged
+    // tree: 1.0 % with the objective-scale variants spanning 1e-8..1e8); reject at level 1e-4
+    let allowance = binom_allowance(nv, 0.02, 1e-4);
     s.note(format!(
         "meta.variants: {} problems, {} with some undecided variant (allowance {}), {} with a tolerance-compatible verdict split",
         nv, undecided.len(), allowance, splits));
